@@ -84,8 +84,10 @@ def with_dumpm(ops, h="h0"):
     return out
 
 
-def reloc_history(rng, tag):
-    """relocation-heavy histories on a small problem: few columns, rows with entries in many (distinct) columns, coefficient
+def reloc_history(rng, tag, repeat=False):
+    """repeat=True: rows list some column twice or three times (the reference semantics stores every entry) - on a nearly full
+    store this is where matrix_addrow as found runs into exit(1) and where the repaired loop falls back to matrix_addrow_end.
+    relocation-heavy histories on a small problem: few columns, rows with entries in many (distinct) columns, coefficient
     edits that create new entries, deletes that leave holes - columns fill their gaps, move behind the used part, and the
     array is rebuilt (matrix_addrow_end) once the free tail (EXTRA_MAT = 1000 slots) is used up"""
     ops = ["CREATE h0 p MIN"]
@@ -100,6 +102,9 @@ def reloc_history(rng, tag):
         if r < 0.40 or m == 0:
             k = rng.randint(max(1, n // 2), n) if n else 0
             cols = rng.sample(range(n), k) if n else []
+            if repeat and cols and rng.random() < 0.7:
+                cols += [rng.choice(cols) for _ in range(rng.randint(1, 3))]
+                rng.shuffle(cols)
             ops.append("ADDROW h0 %s %s - %d%s" % (small(), rng.choice("LGE"), len(cols), "".join(" %d %s" % (j, small()) for j in cols)))
             m += 1
         elif r < 0.65 and n:
@@ -143,6 +148,10 @@ def main():
     build_repo()
     pr = ck.proofs()
     rng = ck.rng
+    variant = l2_variant()      # which matrix_addrow the library has; the extracted model runs the same variant
+    if variant == "unknown":
+        ck.violation("probe.txt", "CASE probe\nRESET\n" + "\n".join(ADDROW_PROBE) + "\n", "C06: on the probe history (a row repeating a column index, store nearly full) the library "
+                     "neither finishes with the reference answer nor stops in matrix_addrow: it matches neither variant of the model", match=dict(kind="probe"))
     T = ck.thorough()
     cases, meta = [], {}
     # (0) corpus: stored replays of earlier findings run first
@@ -171,6 +180,12 @@ def main():
     for i in range(60 if T else 6):
         cases.append(("m%d" % i, with_dumpm(reloc_history(rng, "m%d_" % i))))
         meta["m%d" % i] = ("relocation", None)
+    # (b3) the same with rows that repeat a column index, and the probe history itself
+    for i in range(40 if T else 5):
+        cases.append(("p%d" % i, with_dumpm(reloc_history(rng, "p%d_" % i, repeat=True))))
+        meta["p%d" % i] = ("relocation-repeated-columns", None)
+    cases.append(("probe", with_dumpm(ADDROW_PROBE)))
+    meta["probe"] = ("relocation-repeated-columns", None)
     # (c) bounded-exhaustive: every history of length <= L over the alphabet on the seed LP
     L = 3 if T else 2
     k = 0
@@ -301,7 +316,7 @@ def main():
     ck.cov["max_sizes_reached"] = dict(rows=stats["max_rows"], cols=stats["max_cols"], nonzeros=stats["max_nz"], matsize=stats["max_matsize"])
     ck.cov["raw_store"] = dict(dumps_compared=stats["raw_dumps"], long_lines_compared_by_digest=stats["raw_digest_lines"], model_states_satisfying_lwf_check=stats["wf_true"],
                                lwf_check_skipped_large=stats["wf_skipped"], matsize_changes=stats["matsize_changes"], column_moves_observed=stats["relocations"],
-                               model_fault_states=stats["model_faults"], crash_predicted_by_L2_model=stats.get("crash_predicted_by_L2_model", []))
+                               matrix_addrow_variant_found_by_probe=variant, model_fault_states=stats["model_faults"], crash_predicted_by_L2_model=stats.get("crash_predicted_by_L2_model", []))
     ck.cov["invalid_ops_accepted_by_library_deferred_to_C07"] = stats["deferred_to_C07"]
     ck.cov["harness_crashes"] = [dict(case=c, rc=rc) for c, rc, _ in crashes]
     ck.cov["traces_validated_against_impl"] = stats["ops"]
